@@ -537,8 +537,8 @@ def run(case, ctx):
                 same = (int(g) == v)
             else:
                 same = (g == v)
-            if not same and t == 'number' and float(v) != 0 and abs(
-                    float(g) - float(v)) <= abs(float(v)) * 2.0 ** -51:
+            if not same and t == 'number' and float(v) != 0 and (
+                    default_parser_gives(cell_text(c, v), float(g))):
                 out.known_hit(F_FLOAT, 'column %r row %d: wrote %r, loaded '
                               '%r' % (c['name'], i, cell_text(c, v), g))
                 break
@@ -551,6 +551,24 @@ def run(case, ctx):
                             c.get('format'), g))
                 break
     return out
+
+
+def default_parser_gives(text, g):
+    """Predicate of F-csvw-float-not-round-trip: the value loaded is, bit
+    for bit, what pandas' default float parser makes of the text written,
+    while the correctly rounded parse (float(), or pandas with
+    float_precision='round_trip') gives back the value written.  The error
+    of the default parser grows with the number of digits (hundreds of ulp
+    for 17 significant digits behind leading zeros)."""
+    import pandas as pd
+    try:
+        fast = pd.read_csv(io.StringIO('x\n%s\n' % text))['x'][0]
+        exact = pd.read_csv(io.StringIO('x\n%s\n' % text),
+                            float_precision='round_trip')['x'][0]
+    except Exception:
+        return False
+    return (float(fast) == g and float(exact) == float(text)
+            and abs(g - float(text)) <= abs(float(text)) * 1e-9)
 
 
 def extra(tier, ctx, info, seed_value):
